@@ -134,8 +134,20 @@ func replayPQPath(name, path string) (*core.Trace, *pqMismatch) {
 
 // replayPQ generates and replays; every judgeEvery-th execution is returned for PQTrace.
 func replayPQ(r *core.Run, cfg string, judgeEvery int) []*core.Trace {
-	gen, err := core.RunTLC(r.Scratch, core.TLCOpts{Module: "PQReplay", Config: cfg, Workers: 4, Timeout: 30 * time.Minute, HeapMB: 8192})
-	if err != nil || !gen.OK {
+	return replayPQOpts(r, core.TLCOpts{Module: "PQReplay", Config: cfg, Workers: 4, Timeout: 30 * time.Minute, HeapMB: 8192}, judgeEvery)
+}
+
+// replayPQSim replays random walks of PQReplay.tla (tlc -simulate) with more events and sizes.
+func replayPQSim(r *core.Run, cfg string, num, depth, judgeEvery int) []*core.Trace {
+	return replayPQOpts(r, core.TLCOpts{Module: "PQReplay", Config: cfg, Workers: 1, Timeout: 30 * time.Minute, HeapMB: 4096,
+		Simulate: fmt.Sprintf("num=%d", num), Depth: depth, Seed: r.Seed + 13}, judgeEvery)
+}
+
+func replayPQOpts(r *core.Run, o core.TLCOpts, judgeEvery int) []*core.Trace {
+	cfg := o.Config
+	gen, err := core.RunTLC(r.Scratch, o)
+	simOK := o.Simulate != "" && gen != nil && strings.Contains(gen.Output, "traces generated") && !strings.Contains(gen.Output, "Error:")
+	if err != nil || !(gen.OK || simOK) {
 		r.Break("PQReplay generator failed: %v %s", err, tail(gen))
 		return nil
 	}
@@ -161,7 +173,7 @@ func replayPQ(r *core.Run, cfg string, judgeEvery int) []*core.Trace {
 		go func(i int, p string) {
 			defer wg.Done()
 			defer func() { <-sem }()
-			traces[i], mms[i] = replayPQPath(fmt.Sprintf("pqreplay-%d", i), p)
+			traces[i], mms[i] = replayPQPath(fmt.Sprintf("pqreplay-%s-%d", strings.TrimSuffix(strings.TrimPrefix(cfg, "PQReplay_"), ".cfg"), i), p)
 		}(i, p)
 	}
 	wg.Wait()
